@@ -6,7 +6,7 @@ use std::collections::HashSet;
 use swc::atoms::JsWord;
 use swc_common::{Span, SyntaxContext, DUMMY_SP};
 use swc_ecma_ast::{
-    ArrayLit, AssignExpr, AssignOp, AssignTarget, BindingIdent, Expr, ExprOrSpread, Ident,
+    ArrayLit, AssignExpr, AssignOp, AssignTarget, BindingIdent, Expr, ExprOrSpread, Ident, ParenExpr,
     SimpleAssignTarget,
 };
 
@@ -107,6 +107,13 @@ pub trait IdentProvider {
                     spread: Some(DUMMY_SP),
                     expr: Box::new(expr.clone()),
                 })],
+            })
+        } else if expr.is_seq() {
+            // `${a, b}` or `x[a, b]`: a comma expression does not need parentheses there, but it does
+            // as right operand of the assignment to the temporal variable
+            Expr::Paren(ParenExpr {
+                span: DUMMY_SP,
+                expr: Box::new(expr.clone()),
             })
         } else {
             expr.clone()
